@@ -610,6 +610,14 @@ def main(repo, lean):
     w("/-- the early returns of `request::on_content_start` before the limit checks, `cl` is `long long` -/")
     w(f"def contentStartEarly (cl : Int) : Option Nat := {chain}")
     w(f"def tooLargeMultipart : Nat := {pre.group(2)}\ndef tooLarge : Nat := {pre.group(3)}")
+    b = function_body(req, r"int\s+request::on_content_progress\s*\(\s*size_t\s+n\s*\)\s*\{")
+    m1 = re.search(r"if\s*\(\s*lazy_content_type\(\)\.is_form_urlencoded\(\)\s*\)\s*\{\s*char\s+const\s*\*\s*data\s*=\s*&d->post_data\[0\]\s*;\s*char\s+const\s*\*\s*data_end\s*=\s*data\s*\+\s*d->post_data\.size\(\)\s*;\s*"
+                   r"(parse_form_urlencoded\(data,data_end,post_\)\s*;|if\s*\(\s*!parse_form_urlencoded\(data,data_end,post_\)\s*\)\s*\{\s*post_\.clear\(\)\s*;\s*return\s+(\d+)\s*;\s*\})\s*\}", b)
+    need(m1, "on_content_progress: urlencoded POST handling")
+    w("/-- `request::on_content_progress`: status returned when the urlencoded POST body does not parse (`none`: the\nresult of `parse_form_urlencoded` is ignored and the fields parsed so far are delivered) -/")
+    w(f"def postParseFailure : Option Nat := {('some ' + m1.group(2)) if m1.group(2) else 'none'}")
+    need(re.search(r"d->read_size\s*\+=\s*n\s*;", b), "on_content_progress read_size")
+    need(re.search(r"if\s*\(\s*d->read_size\s*==\s*d->content_length\s*\)\s*\{\s*if\s*\(\s*d->read_full\s*\)", b), "on_content_progress completion test")
     need(re.search(r"d->content_length\s*=\s*conn_->env_content_length\(\)\s*;\s*if\s*\(\s*d->content_length\s*==\s*0\s*\)\s*d->ready\s*=\s*true\s*;", function_body(req, r"bool\s+request::prepare\s*\(\s*\)\s*\{")), "request::prepare")
     w("")
 
